@@ -65,10 +65,10 @@ def run(S):
     # whitespace tokens, lists, flows, parens
     f3 = markup.explore_tokens(S, 3)
     markup.report(S, 'C05', f3)
-    f4 = flows.explore_flow(S, 3 if S.tier == 'quick' else 4, want=('C05',))
-    f4 += lists.explore(S, 2 if S.tier == 'quick' else 3, want=('C05',))
+    f4 = flows.explore_flow(S, 3 if S.tier == 'quick' else 5, want=('C05',))
+    f4 += lists.explore(S, 2 if S.tier == 'quick' else 4, want=('C05',))
     lists.report(S, 'C05', f4)
-    f6 = mathargs.explore(S, 3 if S.tier == 'quick' else 4, want=('C05',))
+    f6 = mathargs.explore(S, 3 if S.tier == 'quick' else 5, want=('C05',))
     mathargs.report(S, 'C05', f6)
     f7 = chains.explore(S, want=('C05',))
     chains.report(S, 'C05', f7)
